@@ -20,9 +20,25 @@ fn longest(n: usize, edges: &[(usize, usize)]) -> Vec<usize> {
     r
 }
 
+thread_local! { static ACC_VARIANT: std::cell::Cell<u8> = const { std::cell::Cell::new(0) }; }
+
 fn check(n: usize, edges: &[(usize, usize)], label: &str) -> bool {
+    for v in 0..3u8 {
+        ACC_VARIANT.with(|c| c.set(v));
+        if !check1(n, edges, &format!("{label}, access declaration variant {v}")) { return false; }
+    }
+    true
+}
+
+fn check1(n: usize, edges: &[(usize, usize)], label: &str) -> bool {
     let mut b = FnGraphBuilder::new();
-    let ids: Vec<FnId> = (0..n).map(|i| b.add_fn(Acc { id: i, reads: vec![], writes: vec![] })).collect();
+    // access declarations must not matter: variant k of the same graph gives every function some reads / writes
+    let variant = ACC_VARIANT.with(|v| v.get());
+    let ids: Vec<FnId> = (0..n).map(|i| b.add_fn(match variant {
+        0 => Acc { id: i, reads: vec![], writes: vec![] },
+        1 => Acc { id: i, reads: vec![], writes: vec![0] },
+        _ => Acc { id: i, reads: if i % 2 == 0 { vec![1] } else { vec![] }, writes: if i % 2 == 1 { vec![1] } else { vec![(i % 3) as u8] } },
+    })).collect();
     for (k, &(x, y)) in edges.iter().enumerate() {
         if k % 2 == 0 { b.add_logic_edge(ids[x], ids[y]).unwrap(); } else { b.add_contains_edge(ids[x], ids[y]).unwrap(); }
     }
